@@ -53,7 +53,10 @@ def classify_cases(ctx, tag, fn, cls, cases, in_enc, out_enc, shard=400, header=
                 "Definition result_ := map (fun io => %s (snd io) (%s (fst io))) cases_.\n"
                 "Eval vm_compute in result_.\n" % (cls, fn))
         files["%s_%d" % (tag, k // shard)] = body
-    res = ctx.coq_eval_many(files, timeout=timeout)
+    # batches: coq_eval_many has ONE overall time limit for all its files
+    res, names = {}, list(files)
+    for k in range(0, len(names), 48):
+        res.update(ctx.coq_eval_many({n: files[n] for n in names[k:k + 48]}, timeout=timeout))
     codes = []
     for name, (rc, out) in sorted(res.items(), key=lambda kv: int(kv[0].rsplit("_", 1)[1])):
         n_expected = min(shard, len(cases) - int(name.rsplit("_", 1)[1]) * shard)
